@@ -90,7 +90,7 @@ ValShape(fam, items) ==
 LowerKinds == {"greater", "greater_or_equal"}
 UpperKinds == {"less", "less_or_equal"}
 Rules(items, K) == {i \in DOMAIN items : items[i].w \in K}
-IsLit(r) == r.sp = "lit"
+IsLit(r) == r.sp \in {"lit", "lit_us"}      \* lit_us: a literal written with digit separators (1_005)
 
 \* real interval described by literal numeric bounds is empty
 LitEmpty(items) ==
